@@ -13,6 +13,8 @@ theorem meta_wf : wfCheck AbnfGen.metaG AbnfGen.metaGNullable AbnfGen.metaGRank 
 
 theorem meta_plain : plainGB AbnfGen.metaG = true := by decide +kernel
 
+theorem meta_closed : closedGB AbnfGen.metaG = true := by decide +kernel
+
 theorem core_wf : wfCheck AbnfGen.coreG AbnfGen.coreGNullable AbnfGen.coreGRank AbnfGen.coreGK AbnfGen.coreGD = true := by
   decide +kernel
 
